@@ -30,7 +30,7 @@ def histories(run: Run) -> list[dict]:
     for _ in range(n_tdep):
         hs.append(S.gen_history(rng, "tdep", 5, weights=vw))
     # structured families (see the generators): override after a steady-state run, tiny gaps at large absolute time,
-    # clear_results after an override with rates reading `time`
+    # clear_results after an override with rates reading `time`, ..., clear_results after a FAILED run
     m = 5 if thorough else 1
     for fam, plan in (
         (S.gen_steady_override, (("exact", 16), ("scipy", 24))),
@@ -38,6 +38,8 @@ def histories(run: Run) -> list[dict]:
         (S.gen_clear_after_override, (("exact", 24), ("tdep", 16))),
         (S.gen_override_steady, (("exact", 20), ("scipy", 16))),
         (S.gen_view_between, (("exact", 24), ("scipy", 12), ("tdep", 12))),
+        # a run that fails ; clear_results ; a fresh run (appended LAST: the stream of the families above is unchanged)
+        (S.gen_clear_after_failure, (("exact", 28), ("scipy", 8))),
     ):
         for mode, n in plan:
             for _ in range(n * m):
@@ -63,7 +65,9 @@ def check(run: Run) -> None:
         "(.variables / .fluxes / get_right_hand_side / get_producers / get_consumers / get_combined / get_args / raw variables, one "
         "or two per result object) read between continuations recorded under different parameter values (operation `view`, "
         "weight 7/103 in the random histories too): nothing the simulator holds and nothing the next segment runs with may "
-        "change; non-trivial = at least two operations "
+        "change -- a run that FAILS (a steady-state search that cannot succeed: NoSteadyState, exact stand-in and real solver; a "
+        "continuation while the stand-in solver reports failure: IntegrationFailure) ; [calls on the failed simulator] ; "
+        "clear_results ; continuations [; an illegal end]: the cleared simulator is a new one; non-trivial = at least two operations "
         "of which one continues an earlier result, overrides a variable, clears, or is refused; distinct by content"
     )
     proofs_ok = run.check_proofs(AREA, PROPS)
